@@ -1,11 +1,12 @@
 """C13 — parallel.Do / DoContext / Map / MapContext: exactly once, bounded, barrier, positional, error contract."""
 import vlib
+from scale_common import ScaleSpec
 from pardo_common import ParDoSpec
 
 PROP_FILES = ["C13"]
 
 
-SPECS = {"pardo": (ParDoSpec(), "harness_pardo", "runner-pardo")}
+SPECS = {"scale": (ScaleSpec(['do']), "harness", "runner"), "pardo": (ParDoSpec(), "harness_pardo", "runner-pardo")}
 
 
 def run(ctx):
@@ -16,6 +17,9 @@ def run(ctx):
                       {"build_output": out[-4000:]}, failing_input=False)
         return ctx.finish()
     vlib.seq_differential(ctx, ParDoSpec(), exe, proofs_ok, tag="pardo")
+    okS, outS, exeS = vlib.build_runner()
+    if okS:
+        vlib.seq_differential(ctx, ScaleSpec(['do']), exeS, proofs_ok, tag="scale")
     vlib.merge_parts(ctx, "cases = controller scripts (call one of Do/DoContext/Map/MapContext with chosen n, parallelism, GOMAXPROCS, "
                      "gated and failing indices; release gates in a chosen order; cancel the caller's context before/mid-flight; quiesce) "
                      "run against the real package; each recorded history (call/ret, enter/exit of every f(i) with the context state seen at entry) "
